@@ -93,6 +93,12 @@ def run(ctx):
             deleg = [t for _, t in mb.calls() if any(ty in HEADS_TYS for ty in t["argtys"])]
             ok = bool(deleg) and all(mb.provenance(a).depends_on_param(hp) for t in deleg for a, ty in zip(t["args"], t["argtys"]) if ty in HEADS_TYS)
             ctx.ob("R9-heads", key + "|delegates heads", ok, r["sp"], "no Option<Clock> worker call; heads forwarded to %s" % [callee(t) for t in deleg])
+            # a session type with read state of its own (AutoCommit: isolation heads, a transaction in flight) must not hand raw heads to the
+            # document: only its get_scope knows what a read may see
+            if "autocommit::AutoCommit" in key or "AutoCommit" in (r.get("container") or ""):
+                raw = [callee(t) for t in deleg if (callee(t) or "").startswith("automerge::automerge::Automerge::")]
+                ctx.ob("R9-heads", key + "|session reads go through get_scope", not raw, r["sp"], "no raw heads handed to the document" if not raw else
+                       "AutoCommit hands the caller's heads straight to %s: the read ignores isolation and sees the ops of the transaction in flight" % raw)
             continue
         for (bi, t, i) in workers:
             arg = t["args"][i]
@@ -108,6 +114,7 @@ def run(ctx):
                    "clock argument of %s does not derive from the heads parameter (sources %s, literal None: %s)" % (callee(t), sorted(cs)[:5], lit_none))
     ctx.floor("ReadDoc methods with a heads parameter (Automerge, AutoCommit, Transaction, OwnedTransaction)", n_at, 60)
     # ---- the cached clocks that scoped reads walk stay aligned with the actor table
+    check_vis_slow(ctx, f)
     from . import C28
     ctx.rule("R11-fields", "ChangeGraph::insert_actor and remove_actor re-index the same actor-indexed structures (clock cache included)")
     C28.check_actor_pair(ctx, f)
@@ -281,3 +288,26 @@ def check_succ_inc(ctx, f):
         ctx.ob("R2-succinc", "%s|increments are not deletions" % norm_fn(p).split("op_set::")[-1], tests >= 1, r["sp"], "tests the successor's increment value" if tests else
                "a successor covered by the clock hides the op whether or not it is an increment: an incremented counter disappears from listings at those heads")
     ctx.floor("visibility predicates walking successors with increments", n, 2)
+
+
+def check_vis_slow(ctx, f):
+    """the walking path of find_op_by_id_and_vis: a later row of the register hides the op only if it is a value (not an increment)"""
+    ctx.rule("R2-incskip", "OpSet::find_op_by_id_and_vis_slow: `visible := false` for the op looked up is set only on the false edge of Op::is_inc of the later row (an increment of a losing counter is not a value that hides the winner)")
+    FN = "automerge::op_set2::op_set::OpSet::find_op_by_id_and_vis_slow"
+    b = ctx.body(FN)
+    ctx.analysed_fns.add(FN)
+    not_inc = cfg.cond_edges(b, atom_call=lambda t: (callee(t) or "").endswith("op_set2::op::Op::is_inc"), want=False)
+    hides = []
+    for bi, blk in enumerate(b.blocks):
+        if blk.get("cleanup"):
+            continue
+        for st in blk["st"]:
+            if not st["d"]["p"] and b.local_ty(st["d"]["l"]) == "bool" and b.local_name(st["d"]["l"]) and st["rv"]["k"] == "Use" and (util.op_const(st["rv"]["o"][0]) or {}).get("v") == "0":
+                # after a row was pulled from the iterator over the later rows
+                if any(b.can_reach(nb, bi) for nb, nt in b.calls() if (norm_fn(nt.get("fn")) or "").endswith("Iterator::next") and any(b.can_reach(s_, nb) for s_ in b.succ[nb])):
+                    hides.append((bi, st))
+    ctx.floor("`visible := false` stores in the walk of find_op_by_id_and_vis_slow", len(hides), 1)
+    for k, (bi, st) in util.ordinal_keys(hides, lambda it: "find_op_by_id_and_vis_slow|hidden by a later row"):
+        ok = any(b.edges_dominate([e], bi) for e in not_inc)
+        ctx.ob("R2-incskip", k, ok, st["sp"], "only by a row that is not an increment" if ok else
+               "every later row of the register that the clock covers hides the op, also a bare increment of a losing counter: parents_at() / object visibility report the winner of a conflict as not visible (and disagree with the indexed path)")
